@@ -196,6 +196,8 @@ pub struct Report {
     pub inconclusive: Vec<String>,
     pub notes: Vec<String>,
     pub exhaustive: Option<bool>,
+    /// free-form per-case records (JSON values) that the driver post-processes (C18 differential)
+    pub records: Vec<String>,
 }
 
 impl Report {
@@ -261,6 +263,7 @@ impl Report {
             }
         }
         self.notes.extend(o.notes);
+        self.records.extend(o.records);
         self.exhaustive = match (self.exhaustive, o.exhaustive) {
             (None, x) => x,
             (x, None) => x,
@@ -299,6 +302,7 @@ impl Report {
             ("violations", jarr(&viol)),
             ("inconclusive", jarr(&inc)),
             ("notes", jarr(&notes)),
+            ("records", jarr(&self.records)),
             (
                 "exhaustive",
                 match self.exhaustive {
